@@ -57,6 +57,13 @@ def describe(body, op, depth=30):
                             cc = op_const(s["rv"]["op"])
                             if cc is not None and ("str" in cc or "bytes" in cc):
                                 return Val("conststr", cc.get("str", bytes(cc["bytes"]).decode("latin1")))
+                # a promoted constant value such as &Some(b'='): describe what the promoted body builds
+                try:
+                    pv = describe_place(pb, {"l": 0, "p": []}, depth - 1)
+                    if pv.kind in ("agg", "const", "conststr"):
+                        return pv
+                except Exception:
+                    pass
             return Val("promoted", str(c["promoted"]))
         if "str" in c:
             return Val("conststr", c["str"])
